@@ -244,3 +244,78 @@ Definition total_rows (c : coll) : N := fold_right N.add 0%N (map lenN (segs c))
    (fed in batches of `cap` rows), the rest at finalize *)
 Fixpoint iotaN (start : N) (n : nat) : list row :=
   match n with O => [] | S m => start :: iotaN (N.succ start) m end.
+
+(* ------------------------------------------------------------------ chunk level: `ColumnCollectionSegment::append_batch`
+   (arrays/collection/segment.rs) AS WRITTEN.  A local segment is its list of chunks, MOST RECENT FIRST (the head is
+   `chunks.last_mut()`); a chunk is the list of the rows filled so far, its capacity is cp.
+
+     if chunks.is_empty() { push new chunk }
+     input_offset = 0; rows_remaining = batch.num_rows();
+     while rows_remaining != 0 {
+         copy_count = min(chunk.capacity - chunk.filled, rows_remaining);
+         chunk.copy_rows(batch, input_offset, copy_count);        // rows input_offset .. input_offset+copy_count
+         input_offset += copy_count;  rows_remaining -= copy_count;
+         if rows_remaining > 0 { push new chunk }
+     }
+   `accum = true` is the code as written (`input_offset += copy_count`); `accum = false` is the variant
+   `input_offset = copy_count`, kept to show that the theorems below do distinguish the two.
+   The loop has no bound in the source (with capacity 0 it never ends); here it runs on fuel. *)
+Fixpoint append_loop (accum : bool) (cp fuel : nat) (rchs : list (list row)) (batch : list row) (off rem : nat)
+  : option (list (list row)) :=
+  match fuel with
+  | O => None
+  | S f =>
+    if rem =? 0 then Some rchs else
+    match rchs with
+    | [] => None
+    | cur :: older =>
+      let copy := Nat.min (cp - length cur) rem in
+      let cur' := cur ++ firstn copy (skipn off batch) in
+      let off' := if accum then off + copy else copy in
+      let rem' := rem - copy in
+      if 0 <? rem' then append_loop accum cp f ([] :: cur' :: older) batch off' rem'
+      else append_loop accum cp f (cur' :: older) batch off' rem'
+    end
+  end.
+
+Definition seg_append (accum : bool) (cp : nat) (rchs : list (list row)) (batch : list row) : option (list (list row)) :=
+  append_loop accum cp (length batch + 2) (match rchs with [] => [[]] | _ => rchs end) batch 0 (length batch).
+
+Fixpoint seg_appends (accum : bool) (cp : nat) (rchs : list (list row)) (batches : list (list row)) : option (list (list row)) :=
+  match batches with
+  | [] => Some rchs
+  | b :: r => match seg_append accum cp rchs b with Some rchs' => seg_appends accum cp rchs' r | None => None end
+  end.
+
+(* the rows of a local segment, in storage order *)
+Definition chunk_rows (rchs : list (list row)) : list row := concat (rev rchs).
+
+(* every chunk but the current one is full, the current one within capacity, and an empty current chunk is the only chunk *)
+Definition wfc (cp : nat) (rchs : list (list row)) : Prop :=
+  match rchs with
+  | [] => True
+  | cur :: older => length cur <= cp /\ Forall (fun c => length c = cp) older /\ (older <> [] -> cur <> [])
+  end.
+
+(* one appender partition of an INSERT / CTAS at chunk level: append_batch, flush at `sz` chunks, flush at the end;
+   flushed segments are kept as their rows in storage order *)
+Definition cflush (sg : list (list row)) (rchs : list (list row)) : list (list row) :=
+  match chunk_rows rchs with [] => sg | r => sg ++ [r] end.
+
+Fixpoint bulk (accum : bool) (cp sz : nat) (sg : list (list row)) (rchs : list (list row)) (batches : list (list row))
+  : option (list (list row)) :=
+  match batches with
+  | [] => Some (cflush sg rchs)
+  | b :: r =>
+    match seg_append accum cp rchs b with
+    | None => None
+    | Some rchs' => if sz <=? length rchs' then bulk accum cp sz (cflush sg rchs') [] r else bulk accum cp sz sg rchs' r
+    end
+  end.
+
+(* rows a .. a+n-1 cut into batches of bs rows *)
+Fixpoint batches_of (fuel bs : nat) (l : list row) : list (list row) :=
+  match fuel with
+  | O => []
+  | S f => match l with [] => [] | _ => firstn bs l :: batches_of f bs (skipn bs l) end
+  end.
